@@ -389,9 +389,13 @@ func init() {
 		return nil
 	}
 	nSlices := len(ethertypes) * len(protos)
-	count := func(tier string) int { return len(progs(tier))*nSlices + onOff.Count(tier) }
+	count := func(tier string) int { return len(progs(tier))*nSlices + onOff.Count(tier) + len(attachScns(tier)) }
 	run := func(tier string, idx int, r *core.ScnResult) {
 		ps := progs(tier)
+		if k := idx - len(ps)*nSlices - onOff.Count(tier); k >= 0 {
+			runAttachScn(&attachScns(tier)[k], r)
+			return
+		}
 		if idx >= len(ps)*nSlices {
 			onOff.Run(tier, idx-len(ps)*nSlices, r)
 			return
@@ -436,6 +440,9 @@ func init() {
 				}
 			}
 			return "unknown program", false
+		}
+		if s, ok, handled := replayAttach(scn, choices); handled {
+			return s, ok
 		}
 		return onOff.Replay(scn, choices)
 	}
